@@ -1,9 +1,12 @@
 from propdefs.common import *
+import os
+
+# C01_N=<n> overrides the number of encodings of the quick tier (larger ad-hoc runs)
 
 PROP = {
     "bin": "c01",
     "coq_targets": ["theories/Isa/C01Check", "theories/Isa/X86Proofs"],
-    "n": {"quick": 2000, "thorough": 40000},
+    "n": {"quick": int(os.environ.get("C01_N", "2000")), "thorough": 40000},
     "theorems": ["reg_get_set_correct", "reg_set_prefix_refuted", "of_add_correct", "of_sub_correct", "cf_sub_correct",
                  "cf_add_correct", "sf_correct", "set_zf_den", "set_sf_den", "set_cf_den", "set_of_den", "lift_mov_reg_reg_correct", "add_reg_ops_correct", "sub_reg_ops_correct", "cmp_reg_ops_correct", "logic_reg_ops_correct", "incdec_reg_ops_correct", "il_run_one_block"],
     "rule": "instruction encodings enumerated from the opcode tables of harness/src/bin/c01.rs (mnemonic x operand size 8/16/32/64(/128) x "
@@ -23,8 +26,11 @@ PROP = {
         "theorem + syntactic tie (all states): the register access layer X86Register::get/set (all sub-register kinds, both tables), the flag helpers set_zf/set_sf/set_of/set_cf, "
         "and, at the level of the emitted operation list run by Sem.exec_op, mov/add/sub/cmp/and/or/xor with register destination and register/immediate source and inc/dec register "
         "(result, ZF/SF/OF/CF = X86.alu/X86.un, memory unchanged); not proved: the glue from the operation list to X86Run.run_instr/X86.step as a whole, memory operands, push/pop, all other builders",
-        "processor + specification comparison on sampled states only ([D]): every other accepted form of the core classes (ALU incl. adc/sbb/test/neg/not, all memory forms, movzx/movsx/movsxd/lea/xchg/push/pop/call/ret/leave, jmp/jcc/setcc/cmovcc/loop/jecxz, shl/shr/sar/rol/ror, mul/imul/div/idiv, cbw..cqo, bt/bts/btr/btc, bsf/bsr, movs/cmps/stos/lods/scas with rep, clc/stc/cmc/cld/std)",
-        "processor comparison only, no Coq specification: shld/shrd, cmpxchg, xadd, bswap, sahf, SSE subset (mov*ps/pd/dq*, movq/movd, pxor/por/paddq/psubq/psubb/pcmpeq*/pminub/punpckl*/pshufd/pslldq/psrldq/pmovmskb, movhpd/movlpd)",
+        "processor + specification comparison on sampled states only ([D]): every other accepted form of the core classes (ALU incl. adc/sbb/test/neg/not, all memory forms, movzx/movsx/movsxd/lea/xchg/push/pop/call/ret/leave, jmp/jcc/setcc/cmovcc/loop/jecxz, shl/shr/sar/rol/ror/shld/shrd, mul/imul/div/idiv, cbw..cqo, bt/bts/btr/btc, bsf/bsr, movs/cmps/stos/lods/scas with rep, clc/stc/cmc/cld/std)",
+        "architecturally undefined (form, state) combinations are never compared: X86.step returns XUnspec there and the oracle is silent (only the tie is evaluated) -- "
+        "shld/shrd r/m16 with a masked count above 16 (imm8 or cl; the only count > operand size combination that exists), besides the per-component undefined results "
+        "(flags after mul/div/bsf/bt, OF after multi-bit shifts/rotates/shld/shrd, CF after shl/shr by >= size, bsf/bsr destination for a zero source) which are masked out",
+        "processor comparison only, no Coq specification: cmpxchg, xadd, bswap, sahf, SSE subset (mov*ps/pd/dq*, movq/movd, pxor/por/paddq/psubq/psubb/pcmpeq*/pminub/punpckl*/pshufd/pslldq/psrldq/pmovmskb, movhpd/movlpd)",
         "accepted by the lifter but not generated (no coverage): segment-override forms (fs/gs), 16-bit addressing in 32-bit mode, moffs forms of mov, far control transfers, int/syscall/sysenter/hlt/cli/sti/ud2/pause/prefetch (privileged or no architectural state change), lock prefixes, cmpxchg8b/16b is not accepted",
         "x86 (32-bit) SSE forms are rejected by the lifter (no xmm registers in the x86 register table) -- outside the property",
     ],
